@@ -17,7 +17,8 @@ routinely (a block extracted into a private helper, a guard clause instead of a 
 * ``untable``   a call through a module-level table of functions, `f = TABLE.get(k)` / `TABLE[k]` ... `f(a)`, becomes the
                 chain `if k == 'A': fA(a) elif k == 'B': fB(a) ... else: f(a)` (the table must be a dict literal with constant
                 keys that the module never changes);
-* ``quiet``     `typing.cast(T, x)` -> x; statements that only log (`logger.debug(..)`, `log.info(..)`) are dropped (a
+* ``quiet``     a `match` statement whose patterns bind nothing (class, value, or-patterns, `_`, guards) -> if / elif / else;
+                `typing.cast(T, x)` -> x; statements that only log (`logger.debug(..)`, `log.info(..)`) are dropped (a
                 block that would become empty keeps a `pass`); `warnings.warn` stays, it is part of the behaviour.
 
 Every transformation keeps the source positions of the nodes it copies (all of them stay inside one module), so the
@@ -238,6 +239,89 @@ class _Quiet(ast.NodeTransformer):
         return node
 
 
+# ------------------------------------------------------------------------------------------------------------ unmatch
+class _NoPlainTest(Exception):
+    pass
+
+
+def _pattern_test(subject: ast.AST, pat: ast.AST) -> Optional[ast.AST]:
+    """The test a `case` pattern stands for, when it binds nothing: None for the irrefutable `_`."""
+    if isinstance(pat, ast.MatchAs) and pat.pattern is None and pat.name is None:
+        return None
+    if isinstance(pat, ast.MatchValue):
+        return ast.copy_location(ast.Compare(left=copy.deepcopy(subject), ops=[ast.Eq()], comparators=[pat.value]), pat)
+    if isinstance(pat, ast.MatchSingleton):
+        return ast.copy_location(ast.Compare(left=copy.deepcopy(subject), ops=[ast.Is()], comparators=[ast.copy_location(ast.Constant(value=pat.value), pat)]), pat)
+    if isinstance(pat, ast.MatchClass) and not pat.patterns and not pat.kwd_patterns:
+        return ast.copy_location(ast.Call(func=ast.copy_location(ast.Name(id="isinstance", ctx=ast.Load()), pat), args=[copy.deepcopy(subject), pat.cls], keywords=[]), pat)
+    if isinstance(pat, ast.MatchOr):
+        tests = [_pattern_test(subject, p) for p in pat.patterns]
+        if any(t is None for t in tests):
+            return None
+        # isinstance(x, A) or isinstance(x, B) -> isinstance(x, (A, B)); x == 'a' or x == 'b' -> x in ('a', 'b')
+        if all(isinstance(t, ast.Call) for t in tests):
+            tup = ast.copy_location(ast.Tuple(elts=[t.args[1] for t in tests], ctx=ast.Load()), pat)  # type: ignore[union-attr]
+            return ast.copy_location(ast.Call(func=ast.copy_location(ast.Name(id="isinstance", ctx=ast.Load()), pat), args=[copy.deepcopy(subject), tup], keywords=[]), pat)
+        if all(isinstance(t, ast.Compare) and isinstance(t.ops[0], ast.Eq) for t in tests):
+            tup = ast.copy_location(ast.Tuple(elts=[t.comparators[0] for t in tests], ctx=ast.Load()), pat)  # type: ignore[union-attr]
+            return ast.copy_location(ast.Compare(left=copy.deepcopy(subject), ops=[ast.In()], comparators=[tup]), pat)
+        return ast.copy_location(ast.BoolOp(op=ast.Or(), values=tests), pat)  # type: ignore[arg-type]
+    raise _NoPlainTest
+
+
+class _Unmatch(ast.NodeTransformer):
+    """`match x: case A(): .. case 'k' | 'l': .. case _: ..` -> if / elif / else, where the subject is a plain name or
+    attribute chain and no pattern binds a name or destructures (those `match` statements are left as they are)."""
+
+    def visit_Match(self, node: ast.Match):
+        self.generic_visit(node)
+        original = node
+        node = copy.deepcopy(node)  # the rewriting is abandoned as a whole if one pattern cannot be put as a plain test
+        subj = node.subject
+        pre: list[ast.stmt] = []
+        if not (_keyish(subj) or (isinstance(subj, ast.Subscript) and _keyish(subj.value) and isinstance(subj.slice, ast.Constant))):
+            # any other subject is evaluated once, into a fresh local
+            _Unmatch.n += 1
+            tmp = "__match_subject%d" % _Unmatch.n
+            pre = [ast.copy_location(ast.Assign(targets=[ast.copy_location(ast.Name(id=tmp, ctx=ast.Store()), subj)], value=subj, lineno=node.lineno, col_offset=node.col_offset), node)]
+            node.subject = ast.copy_location(ast.Name(id=tmp, ctx=ast.Load()), subj)
+        arms: list[tuple[Optional[ast.AST], list[ast.stmt]]] = []
+        try:
+            for c in node.cases:
+                pat = c.pattern
+                if isinstance(pat, ast.MatchAs) and pat.name is not None:
+                    # `case <pattern> as name` / `case name`: the subject itself is bound
+                    bind = ast.copy_location(ast.Assign(targets=[ast.copy_location(ast.Name(id=pat.name, ctx=ast.Store()), pat)], value=copy.deepcopy(node.subject),
+                                                        lineno=pat.lineno, col_offset=pat.col_offset), pat)
+                    c.body = [bind] + c.body
+                    pat = pat.pattern if pat.pattern is not None else ast.copy_location(ast.MatchAs(pattern=None, name=None), pat)
+                t = _pattern_test(node.subject, pat)
+                if c.guard is not None:
+                    t = c.guard if t is None else ast.copy_location(ast.BoolOp(op=ast.And(), values=[t, c.guard]), c.pattern)
+                arms.append((t, c.body))
+                if t is None:
+                    break
+        except _NoPlainTest:
+            return original
+        chain: Optional[ast.If] = None
+        last: Optional[ast.If] = None
+        for t, body in arms:
+            if t is None:
+                if last is None:
+                    return pre + body
+                last.orelse = body
+                break
+            n = ast.copy_location(ast.If(test=t, body=body, orelse=[]), node)
+            if chain is None:
+                chain = n
+            else:
+                last.orelse = [n]  # type: ignore[union-attr]
+            last = n
+        return (pre + [chain]) if chain is not None else original
+
+    n = 0
+
+
 # -------------------------------------------------------------------------------------------------------- if-shapes
 def _elsify_block(stmts: list[ast.stmt]) -> list[ast.stmt]:
     out: list[ast.stmt] = []
@@ -299,6 +383,34 @@ UNSTABLE_ATTRS: set[str] = set()  # names of properties / descriptors of the pac
 CLASS_PROPS: dict[str, set[str]] = {}  # class (simple name) -> property names it defines, set by the driver
 CLASS_BASES: dict[str, set[str]] = {}  # class (simple name) -> simple names of its bases
 _CUR_CLASS: list[Optional[str]] = [None]  # the class whose method is being rewritten
+PACKAGE_TREES: dict[str, ast.Module] = {}  # module name -> parsed tree of every module of the package, set by the driver
+FOREIGN_LINE_OFFSET = 1_000_000  # nodes copied from another module get positions that no node of this module has
+
+
+def _imported_private_functions(tree: ast.Module, module_name: str) -> dict[str, ast.FunctionDef]:
+    """local name -> definition, for the module-level functions this module imports by name from a *private* module of the
+    package (last component starts with `_`): code that was moved out into a helper module and is delegated to."""
+    out: dict[str, ast.FunctionDef] = {}
+    if not PACKAGE_TREES or not module_name:
+        return out
+    is_pkg = any(n.startswith(module_name + ".") for n in PACKAGE_TREES)
+    for st in tree.body:
+        if not isinstance(st, ast.ImportFrom):
+            continue
+        if st.level:
+            parts = module_name.split(".")
+            base = parts if is_pkg else parts[:-1]
+            base = base[: len(base) - (st.level - 1)] if st.level > 1 else base
+            src = ".".join(base + ([st.module] if st.module else []))
+        else:
+            src = st.module or ""
+        if not src.split(".")[-1].startswith("_") or src.split(".")[-1].startswith("__") or src not in PACKAGE_TREES:
+            continue
+        defs = {d.name: d for d in PACKAGE_TREES[src].body if isinstance(d, ast.FunctionDef)}
+        for al in st.names:
+            if al.name in defs:
+                out[al.asname or al.name] = defs[al.name]
+    return out
 
 
 def _self_attr_is_plain(attr: str) -> bool:
@@ -506,6 +618,16 @@ class _Fold(ast.NodeTransformer):
             return ast.copy_location(ast.Constant(value=bool(r)), node)
         return node
 
+    tables: dict = {}
+
+    def visit_Subscript(self, node: ast.Subscript):
+        self.generic_visit(node)
+        if isinstance(node.ctx, ast.Load) and isinstance(node.value, ast.Name) and node.value.id in self.tables and isinstance(node.slice, ast.Constant):
+            for k, v in self.tables[node.value.id]:
+                if type(k.value) is type(node.slice.value) and k.value == node.slice.value and isinstance(v, ast.Constant):
+                    return ast.copy_location(ast.Constant(value=v.value), node)
+        return node
+
     def visit_UnaryOp(self, node: ast.UnaryOp):
         self.generic_visit(node)
         if isinstance(node.op, ast.Not) and isinstance(node.operand, ast.Constant):
@@ -546,9 +668,10 @@ class _Refuse(Exception):
 
 
 class Inliner:
-    def __init__(self, tree: ast.Module, ambiguous_methods: set[str]):
+    def __init__(self, tree: ast.Module, ambiguous_methods: set[str], module_name: str = ""):
         self.tree = tree
         self.ambiguous = ambiguous_methods
+        self.imported = _imported_private_functions(tree, module_name)
         self.module_funcs: dict[str, ast.FunctionDef] = {}
         self.class_methods: dict[str, dict[str, ast.FunctionDef]] = {}
         self.class_bases: dict[str, list[str]] = {}
@@ -566,6 +689,14 @@ class Inliner:
         self._orig: dict[int, ast.FunctionDef] = {}
         for f in list(self.module_funcs.values()) + [m for ms in self.class_methods.values() for m in ms.values()]:
             self._orig[id(f)] = copy.deepcopy(f)
+        for f in self.imported.values():
+            c = copy.deepcopy(f)
+            for n in ast.walk(c):
+                if hasattr(n, "lineno"):
+                    n.lineno = n.lineno + FOREIGN_LINE_OFFSET
+                    if getattr(n, "end_lineno", None) is not None:
+                        n.end_lineno = n.end_lineno + FOREIGN_LINE_OFFSET
+            self._orig[id(f)] = c
         self.counter = 0
         self.n_inlined = 0
         self.inlined_helpers: set[str] = set()
@@ -594,6 +725,8 @@ class Inliner:
         recv: Optional[ast.AST] = None
         if isinstance(f, ast.Name) and self._private(f.id) and f.id in self.module_funcs:
             helper = self.module_funcs[f.id]
+        elif isinstance(f, ast.Name) and f.id in self.imported and f.id not in self.module_funcs:
+            helper = self.imported[f.id]
         elif isinstance(f, ast.Attribute) and isinstance(f.value, ast.Name) and self._private(f.attr):
             base = f.value.id
             if base in ("self", "cls") and cls is not None:
@@ -1101,7 +1234,7 @@ def _module_tables(tree: ast.Module) -> dict[str, list[tuple[ast.Constant, ast.A
         elif isinstance(st, ast.AnnAssign) and isinstance(st.target, ast.Name) and st.value is not None:
             tgt, val = st.target.id, st.value
         if tgt and isinstance(val, ast.Dict) and val.keys and all(isinstance(k, ast.Constant) for k in val.keys) \
-                and all(isinstance(v, (ast.Name, ast.Attribute)) for v in val.values):
+                and all(isinstance(v, (ast.Name, ast.Attribute, ast.Constant)) for v in val.values):
             cands[tgt] = list(zip(val.keys, val.values))  # type: ignore[arg-type]
     if not cands:
         return {}
@@ -1285,8 +1418,10 @@ def transform(tree: ast.Module, kind: str, ambiguous: set[str], external_refs: O
     for step in _PIPE[kind]:
         if step == "quiet":
             new = _Quiet().visit(new)
+            if any(isinstance(n, ast.Match) for n in ast.walk(new)):
+                new = _Unmatch().visit(new)
         elif step == "inline":
-            inl = Inliner(new, ambiguous)
+            inl = Inliner(new, ambiguous, module_name)
             for fn, cls in _each_function(new):
                 if isinstance(fn, ast.FunctionDef):
                     _CUR_CLASS[0] = cls
@@ -1301,9 +1436,19 @@ def transform(tree: ast.Module, kind: str, ambiguous: set[str], external_refs: O
                     _copyprop_function(fn)
             _CUR_CLASS[0] = None
         elif step == "fold":
-            new = _Fold().visit(new)
+            folder = _Fold()
+            folder.tables = dict(_module_tables(new))
+            # constant tables of the private modules this one imports functions from (their bodies may have been inlined)
+            if PACKAGE_TREES and module_name:
+                for st in new.body:
+                    if isinstance(st, ast.ImportFrom):
+                        for cand in PACKAGE_TREES:
+                            if cand.split(".")[-1].startswith("_") and not cand.split(".")[-1].startswith("__") and st.module and cand.endswith(st.module.lstrip(".")):
+                                for k, v in _module_tables(PACKAGE_TREES[cand]).items():
+                                    folder.tables.setdefault(k, v)
+            new = folder.visit(new)
         elif step == "untable":
-            tables = _module_tables(new)
+            tables = {k: v for k, v in _module_tables(new).items() if all(isinstance(x, (ast.Name, ast.Attribute)) for _k, x in v)}
             if tables:
                 for fn, _cls in _each_function(new):
                     if isinstance(fn, ast.FunctionDef):
